@@ -248,6 +248,8 @@ def run(ctx):
             demo = True
 
             def corrupt_alias(r, state={"src": None}):
+                if r["ev"] == "new":
+                    state["src"] = None       # ids are numbered per history
                 if r["ev"] == "f":
                     state["src"] = r["ids"]
                 if r["ev"] == "c" and r["outs"] and state["src"]:
